@@ -421,6 +421,14 @@ def register_forwarding(w):
         if holds is False:
             d.update(args={"witness": "C19_function_target_kwargs_family"}, replay={"reproduced": True, "detail": detail}, formula="", model=detail)
         out["obls"].append(d)
+        holds, detail = run_witness("D43", timeout=900)
+        d = {"oid": "jax2onnx.plugins.flax.nnx.dot_product_attention:DotProductAttentionPlugin.lower#bounded:is_causal_is_honoured_or_rejected", "kind": "bounded",
+             "status": "discharged" if holds else ("refuted" if holds is False else "unknown"), "backend": "enumerated", "time": time.time() - t0, "instances": 1, "trivial": 0,
+             "bounded": "nnx.dot_product_attention(q, k, v, is_causal=True/False) on q,k,v[1,4,2,8]",
+             "note": f"the forwarding contract ends at primitive.bind; what the lowering does with a forwarded parameter is not under contract; {detail}"[:500]}
+        if holds is False:
+            d.update(args={"witness": "D43"}, replay={"reproduced": True, "detail": detail}, formula="", model=detail)
+        out["obls"].append(d)
         out["paths"], out["time"] = 1, time.time() - t0
         return out
-    w.add_contract(Contract("jax2onnx.plugins.plugin_system:<bounded-function-target-kwargs>", kind="custom", custom=bounded_targets, props=["C19"], witnesses=["C19_function_target_kwargs_family"]))
+    w.add_contract(Contract("jax2onnx.plugins.plugin_system:<bounded-function-target-kwargs>", kind="custom", custom=bounded_targets, props=["C19"], witnesses=["C19_function_target_kwargs_family", "D43"]))
